@@ -48,7 +48,12 @@ def _tree(draw, species, params, depth):
     if op in ("sub", "div"):
         return [op, sub(), sub()]
     if op == "pow":
-        if draw(st.integers(0, 3)) > 0:
+        kind = draw(st.integers(0, 4))
+        if kind == 4:
+            # an exponent written as a ratio of integer literals, X^(1/2): exact Rational inside the parser
+            a, b_ = draw(st.sampled_from([(1, 2), (3, 2), (-1, 2), (2, 3), (1, 3), (5, 2), (-3, 2), (1, 4)]))
+            expo = ["div", ["num", float(a), str(a)], ["num", float(b_), str(b_)]]
+        elif kind > 0:
             e = draw(st.sampled_from([2.0, 3.0, -1.0, -2.0, 0.5, 1.5, 0.0, 1.0]))
             txt = ref._num_str(e)
             expo = ["num", e, txt]
@@ -361,6 +366,30 @@ def check(case):
                 res.fail((tag, surface), text=text, tree=tree, point=pt, got=got, expected=exp, max_intermediate=Mx,
                          ops=feature)
                 return res
+    if surface == "parse" and not res.fails and (len(species) >= 2 or len(params) >= 2):
+        # the same text compiled again, in the same process, for a model that declares the same names in the opposite
+        # order: every symbol must be read from its *new* slot
+        s2i_r = {s_: len(species) - 1 - i for s_, i in s2i.items()}
+        p2i_r = {p_: len(params) - 1 - i for p_, i in p2i.items()}
+        with specmod.quiet():
+            term2 = parse_expression(text, s2i_r, p2i_r)
+        for pt in case["points"]:
+            env = dict(pt["species"]); env.update(pt["params"])
+            tv = true_value(tree, env, pt["t"], 1.0)
+            if tv is None:
+                continue
+            xs = np.zeros(len(species)); ps = np.zeros(len(params))
+            for s_ in species:
+                xs[s2i_r[s_]] = pt["species"][s_]
+            for p_ in params:
+                ps[p2i_r[p_]] = pt["params"][p_]
+            got = float(term2.py_evaluate(xs, ps, pt["t"]))
+            if not (math.isfinite(got) and abs(got - tv[0]) <= 1e-8 * max(1.0, tv[1])):
+                res.fail(("evaluation_after_recompiling_for_another_declaration_order", "parse"), text=text, point=pt,
+                         got=got, expected=tv[0])
+                return res
+            res.label("recompiled_for_reversed_declaration_order")
+            break
     res.nontrivial = (n_in_domain > 0 and ref.tree_depth(tree) >= 2 and
                       bool(ops & {"min", "max", "abs", "log", "exp", "step", "t", "vol"} or syms & set(CLASH)
                            or case["style"]["legacy"]
